@@ -75,7 +75,26 @@ def l3_scripted(ctx, T, rng, n_sessions):
             except Exception:  # noqa: BLE001
                 decodable = False
             what = None
-            if r.startswith("EXC"):
+            order = [cbid for (_i, cbid, _f, _v) in S.calls]          # invocation order of this round
+            closed_by = None
+            gone = set()
+            for pos_, cbid in enumerate(order):
+                if closed_by is not None:
+                    what = f"callback {cbid} was invoked after callback {closed_by} had closed the subunit (order {order})"
+                    break
+                if cbid in gone:
+                    what = f"callback {cbid} was invoked after it had been unregistered by an earlier callback of the same round (order {order})"
+                    break
+                for op in scripts.get(cbid, []):
+                    if op[0] == "close":
+                        closed_by = cbid
+                    elif op[0] == "unreg":
+                        gone.add(op[1])
+                    elif op[0] == "reg":
+                        gone.discard(op[1])
+            if what:
+                pass
+            elif r.startswith("EXC"):
                 what = f"delivery raised {r[4:]} (in the reader thread this ends the connection)"
             elif len(set(invoked)) != len(invoked):
                 what = f"a callback was invoked twice for one value: {invoked}"
